@@ -109,10 +109,7 @@ def eff_pulse_ms(env, mpf_default):
 
 def eff_pulse_ms_options(env, mpf_default):
     """The default in force; two candidates in the instant a template default is being re-evaluated."""
-    out = [eff_pulse_ms(env, mpf_default)]
-    if "default_pulse_ms_old" in env:
-        out.append(env["default_pulse_ms_old"])
-    return out
+    return [eff_pulse_ms(env, mpf_default)] + list(env.get("default_pulse_ms_old", ()))
 
 
 def eff_pulse_power(env):
@@ -503,7 +500,7 @@ def plan(ch, tier):
         if w == "rel":
             op["when"] = ["rel", ch.pick("dt", [0.0, 0.001, 0.01, 0.05, 0.1, 0.2, 0.255, 0.256, 0.3, 0.5, 1.0, 2.0])]
         elif w == "deadline":
-            op["when"] = ["deadline", ch.choice("dl_idx", 3), ch.pick("dl_delta", [0.0, 0.0, -0.001, 0.001])]
+            op["when"] = ["deadline", ch.choice("dl_idx", 3), ch.pick("dl_delta", [0.0, 0.0, -0.001, 0.001, -0.1, -0.25])]
         else:
             op["when"] = ["rel", 0.0]
         ops.append(op)
@@ -549,7 +546,9 @@ class Monitor:
     def __init__(self, ctx, envs, mpf_default):
         self.ctx = ctx
         self.sim = None
-        self.envs = dict(envs)
+        # private copy: the model updates template defaults
+        self.envs = {k: {kk: vv for kk, vv in v.items() if kk not in ("default_pulse_ms_old", "default_changed_at")}
+                     for k, v in envs.items()}
         # digital outputs announce this envelope to the platform themselves (DriverConfig in DigitalOutput)
         self.envs["do1"] = {"max_pulse_ms": 255, "max_pulse_power": 1.0, "max_hold_power": 1.0, "allow_enable": True,
                             "default_pulse_ms": 255, "default_pulse_power": 1.0, "default_hold_power": 1.0,
@@ -599,11 +598,12 @@ class Monitor:
             cls, why, safe = judge(kind, env, self.mpf_default, a)
             if "default_pulse_ms_old" in env and a.get("pulse_ms") is None and kind != "disable":
                 # a template default changed in this very instant: MPF may still use the previous value
-                env2 = dict(env, default_pulse_ms=env["default_pulse_ms_old"])
-                del env2["default_pulse_ms_old"]
-                cls2, why2, safe2 = judge(kind, env2, self.mpf_default, a)
-                if cls2 != cls:
-                    cls, why, safe = "open", ["default_changing"], safe + safe2
+                for old in env["default_pulse_ms_old"]:
+                    env2 = dict(env, default_pulse_ms=old)
+                    del env2["default_pulse_ms_old"]
+                    cls2, why2, safe2 = judge(kind, env2, self.mpf_default, a)
+                    if cls2 != cls:
+                        cls, why, safe = "open", ["default_changing"], safe + safe2
             req = {"kind": kind, "coil": coil, "a": a, "cls": cls, "why": why, "safe": safe}
         req["n0"] = self.ncmd.get(coil, 0)
         req["r0"] = self.nrule.get(coil, 0)
@@ -976,6 +976,8 @@ def execute(ctx, plan):
     envs = plan["envs"]
     mpf_default = plan["mpf_default"]
     mon = Monitor(ctx, envs, mpf_default)
+    if plan.get("tmpl") is not None:
+        mon.envs["c_b"]["default_pulse_ms"] = plan["tmpl"]
     ctx.c08 = mon
     install_wrappers(mon)
     patches, mode_patches = build_patches(plan)
@@ -1071,7 +1073,9 @@ def execute(ctx, plan):
             sim.hit_switch(op["switch"], op["state"])
         elif kind == "setvar":
             env = mon.envs["c_b"]
-            env["default_pulse_ms_old"] = env["default_pulse_ms"] if "default_pulse_ms_old" not in env else env["default_pulse_ms_old"]
+            if "default_pulse_ms_old" in env and now > env["default_changed_at"]:
+                del env["default_pulse_ms_old"]
+            env["default_pulse_ms_old"] = env.get("default_pulse_ms_old", []) + [env["default_pulse_ms"]]
             env["default_pulse_ms"] = op["value"]
             env["default_changed_at"] = now
             ctx.probe("template_default_changed")
@@ -1195,6 +1199,7 @@ def execute(ctx, plan):
         coil = mon.name_of(d)
         env = mon.envs.get(coil)
         ctx.log("final", coil, d.sim_enabled)
-        if env is not None and d.sim_enabled and not holds_allowed(env):
+        if env is not None and d.sim_enabled and not holds_allowed(env) and not mon.open_obligations(coil):
+            # (a coil with an open, not yet due obligation is inside a running software-timed pulse, e.g. a looping show)
             ctx.violation("left_on", "final", "%s is physically on at the end of the run but its configuration does not "
                           "allow holding (%r)" % (coil, mon._lim(coil)))
